@@ -37,6 +37,12 @@ CHECKS = {
   note="Trusted: TLC, output readers. Unit factors exact integers; -normalize only with ratio 1. One known finding (ScaleN keep rule) identified by the input class the specification computes.",
   technique="TLA+ spec + TLC exhaustive enumeration of profile tuples replayed through driver.PProf",
   design_ref="DESIGN.md 5/C07"),
+ "C01": dict(
+  category="model_checking",
+  text="Codec.tla/CodecRules.tla: lifecycle state machine mem -> Write -> wire -> Parse -> mem over a field-level wire model (string table, label records, id references with the dense/sparse lookup, nil period type); TLC checks RoundTrip (result = Norm(profile), the only loss proto3 forces), Fixpoint (nothing changes from the second generation on), NormIdempotent and OnlyAllowedLoss on a catalogue that straddles the codec's data-dependent thresholds. Every catalogue profile is concretised twice (plain; int64/uint64 extremes, huge sparse ids, non-UTF8/empty strings) and pushed through Write/WriteUncompressed x Parse/ParseData/ParseUncompressed, Copy and pprof -proto, compared table-by-table with ids against Norm(profile), plus second round trip and byte-identical re-serialisation (Binding A); 3k-30k random profiles are round-tripped and validated by TLC against TraceCodec.tla (Binding B).",
+  note="Trusted: TLC, vlib table bridge. The varint byte codec is below the model (exercised, not modelled).",
+  technique="TLA+ lifecycle spec + TLC enumeration replayed on the real codec; TLC trace validation of recorded round trips",
+  design_ref="DESIGN.md 5/C01"),
 }
 
 NOT_YET = "check not built yet in this session (planned in DESIGN.md section 5)"
